@@ -141,7 +141,24 @@ double Binomial_Coefficient(int n, int k)
 		return 0;
 	else if(n > 170)
 	{
-		return floor(0.5 + exp(GammaLn(n + 1.0) - GammaLn(k + 1.0) - GammaLn(n - k + 1.0)));
+		// n! overflows: build C(n,m), m = min(k,n-k), as the product of (n-m+i)/i, i = 1..m. After each factor the value is the
+		// binomial coefficient C(n-m+i,i), so dividing by i/gcd first and multiplying afterwards keeps every intermediate an
+		// integer: exact as long as it is representable, and symmetric in k <-> n-k by construction.
+		int m			   = std::min(k, n - k);
+		long double result = 1.0L;
+		for(int i = 1; i <= m; i++)
+		{
+			int factor = n - m + i;
+			int a = factor, b = i;
+			while(b != 0)
+			{
+				int t = a % b;
+				a	  = b;
+				b	  = t;
+			}
+			result = result / (i / a) * (factor / a);
+		}
+		return static_cast<double>(result);
 	}
 	else
 		return floor(0.5 + Factorial(n) / Factorial(k) / Factorial(n - k));
